@@ -25,22 +25,44 @@ REQUIRED_THEOREMS = [
     "SpecVerif.Props.C13.indexForKey_is_scan",
     "SpecVerif.Props.C13.keys_is_scan",
     "SpecVerif.Props.C13.clear_list",
+    # item equality that is not identity (stepE = the model the driver runs)
+    "SpecVerif.Props.C13.coh_stepE",
+    "SpecVerif.Props.C13.coh_runE",
+    "SpecVerif.Props.C13.stepE_atomic",
+    "SpecVerif.Props.C13.stepE_refines_list",
+    "SpecVerif.Props.C13.runE_refines_list",
+    "SpecVerif.Props.C13.stepE_structural",
+    "SpecVerif.Props.C13.byKey_ignores_item_equality",
+    "SpecVerif.Props.C13.index_is_first_equal",
+    "SpecVerif.Props.C13.index_error_iff",
+    "SpecVerif.Props.C13.remove_refines",
+    "SpecVerif.Props.C13.containsItem_iff",
+    "SpecVerif.Props.C13.locate_by_equality_sound",
 ]
 RULE = (
-    "cases = (universe in {self-keyed str, tuple+key fn, keyed spec class, int-keyed tuple}) x (typed/untyped) x "
+    "cases = (universe in {self-keyed str, tuple+key fn, keyed spec class, int-keyed tuple, objects whose == ignores "
+    "the keyed field, numbers keyed by repr (0 == 0.0 == False, 1 == 1.0 == True), int-keyed tuples addressed by "
+    "equal float keys and float-keyed twins}) x (typed/untyped) x "
     "initial container x op sequence; exhaustive over all single ops from every initial container of <= N items "
     "(3 keys x 2 payloads, indices in [-len-1, len+1]) then seeded random sequences of length <= 25; a case is "
     "non-trivial when an op changed the container or raised; distinct = distinct (universe, typed, pre-state, op) pairs"
 )
 EXHAUSTIVE = {"quick": False, "thorough": False}
 ASSUMPTIONS = [
-    "key functions are pure and total on admissible items; item equality is structural (no NaN, no mutable hashables)",
+    "key functions are pure and total on admissible items; item equality (==) is pure and reflexive (no NaN, no mutable "
+    "hashables) but NOT assumed structural nor to respect keys: the model takes it as a parameter (eqv)",
     "int subscripts on a KeyedList are positions (DESIGN.md section 10 item 4)",
     "keys()/items() are compared in dict insertion order between model and code; the oracle compares them as sets",
 ]
 
-UNIVERSES = ["self", "tuple", "spec", "intkey"]
+UNIVERSES = ["self", "tuple", "spec", "intkey", "eqp", "num", "numkey"]
+# what Python `==` between two items is, as the driver's eqmode (see Drivers/C13.lean)
+EQMODE = {"self": 0, "tuple": 0, "spec": 0, "intkey": 0, "eqp": 1, "num": 1, "numkey": 2}
+# "num": numbers keyed by repr; token (k, k // 3, 0) = NUMS[k]; items with the same k // 3 are == but have different keys
+NUMS = [0, 0.0, False, 1, 1.0, True]
 _It = None
+_Tag = None
+_Other = None
 
 
 def setup():
@@ -56,6 +78,34 @@ def setup():
 
     _It = It
 
+    global _Tag, _Other
+
+    def item_class(cls_name):
+        class C:
+            """Item whose equality ignores the field used as key (`name`)."""
+
+            __slots__ = ("name", "colour", "kind")
+
+            def __init__(self, name, colour, kind=0):
+                self.name, self.colour, self.kind = name, colour, kind
+
+            def __eq__(self, other):
+                return type(other) is type(self) and (self.colour, self.kind) == (other.colour, other.kind)
+
+            def __ne__(self, other):
+                return not self.__eq__(other)
+
+            def __hash__(self):
+                return hash((self.colour, self.kind))
+
+            def __repr__(self):
+                return f"{cls_name}({self.name!r}, {self.colour!r}, {self.kind!r})"
+
+        C.__name__ = C.__qualname__ = cls_name
+        return C
+
+    _Tag, _Other = item_class("Tag"), item_class("Other")  # two unrelated classes
+
 
 # ---------------------------------------------------------------------------
 # item encoding
@@ -69,6 +119,10 @@ def tok(item):
 def real_key(u, k):
     if u == "intkey":
         return k
+    if u == "numkey":
+        return float(k)  # equal to the stored int key, but not an int: `l[1.0]` is access by key
+    if u == "num":
+        return repr(NUMS[k]) if 0 <= k < len(NUMS) else str(k)
     return f"k{k}"
 
 
@@ -90,17 +144,46 @@ def real_item(u, item):
         if b == 2:
             return _It(key=k, p=p)  # int key where str is declared
         return _It(key=f"k{k}", p=p)
-    if u == "intkey":
+    if u in ("intkey", "numkey"):
         if b == 1:
             return [k, p]
         if b == 2:
             return (f"s{k}", p)
+        if b == 3:
+            return (float(k), p)  # numkey only: == (k, p), key == k, wrong key type on KeyedList[tuple, int]
         return (k, p)
+    if u == "eqp":
+        if b == 1:
+            return _Other(f"k{k}", p, 1)  # not a Tag
+        if b == 2:
+            return _Tag(k, p, 2)  # int key where str is declared
+        return _Tag(f"k{k}", p, 0)
+    if u == "num":
+        if b == 1:
+            return f"s{k}"  # not a number (the repr key is still a str)
+        if b == 2:
+            return ("t", k)
+        return NUMS[k]
     raise ValueError(u)
 
 
 def unreal_item(u, obj):
-    """Back from a real item to the token triple."""
+    """Back from a real item to the token triple. Never raises: an object that should not be there at all
+    (e.g. an inadmissible item that a broken container let in) becomes a token the model never prints."""
+    try:
+        return _unreal_item(u, obj)
+    except Exception:
+        return ("?" + type(obj).__name__, 0, 9)
+
+
+def unreal_key(u, k):
+    try:
+        return _unreal_key(u, k)
+    except Exception:
+        return "?" + type(k).__name__
+
+
+def _unreal_item(u, obj):
     if u == "self":
         if isinstance(obj, int):
             return ((obj - 1000) // 10, (obj - 1000) % 10, 1)
@@ -117,15 +200,38 @@ def unreal_item(u, obj):
         if isinstance(obj.key, int):
             return (obj.key, obj.p, 2)
         return (int(obj.key[1:]), obj.p, 0)
-    if u == "intkey":
+    if u in ("intkey", "numkey"):
         if isinstance(obj, list):
             return (obj[0], obj[1], 1)
         if isinstance(obj[0], str):
             return (int(obj[0][1:]), obj[1], 2)
+        if isinstance(obj[0], float):
+            return (int(obj[0]), obj[1], 3)
         return (obj[0], obj[1], 0)
+    if u == "eqp":
+        if type(obj) is _Other:
+            return (int(obj.name[1:]), obj.colour, 1)
+        if isinstance(obj.name, int):
+            return (obj.name, obj.colour, 2)
+        return (int(obj.name[1:]), obj.colour, 0)
+    if u == "num":
+        if isinstance(obj, str):
+            return (int(obj[1:]), 0, 1)
+        if isinstance(obj, tuple):
+            return (obj[1], 0, 2)
+        k = next(i for i, v in enumerate(NUMS) if type(v) is type(obj) and v == obj)
+        return (k, k // 3, 0)
+    raise ValueError(u)
 
 
-def unreal_key(u, k):
+def _unreal_key(u, k):
+    if u == "num":
+        for i, v in enumerate(NUMS):
+            if repr(v) == k:
+                return i
+        return int(k)
+    if isinstance(k, float):
+        return int(k)
     if isinstance(k, int):
         return k
     if isinstance(k, str):
@@ -138,8 +244,12 @@ def make_list(u, typed, items=()):
     from spec_classes.types import KeyedList
 
     keyfn = None
-    if u in ("tuple", "intkey"):
+    if u in ("tuple", "intkey", "numkey"):
         keyfn = lambda x: x[0]  # noqa: E731
+    if u == "eqp":
+        keyfn = lambda x: x.name  # noqa: E731
+    if u == "num":
+        keyfn = repr
     if typed:
         from typing import Any
 
@@ -148,6 +258,9 @@ def make_list(u, typed, items=()):
             "tuple": KeyedList[tuple, str],
             "spec": KeyedList[_It, str],
             "intkey": KeyedList[tuple, int],
+            "numkey": KeyedList[tuple, int],
+            "eqp": KeyedList[_Tag, str],
+            "num": KeyedList[float, str],  # check_type treats `float` as numbers.Real: int, float and bool pass
         }[u]
         return T(items, key=keyfn)
     return KeyedList(items, key=keyfn)
@@ -184,7 +297,7 @@ def op_line(op):
 def model_lines(case):
     u, typed = case["universe"], case["typed"]
     head = " ".join(
-        ["new", "1" if typed else "0", "1" if u == "self" else "0"] + [tok(x) for x in case["init"]]
+        ["new", "1" if typed else "0", "1" if u == "self" else "0", str(EQMODE[u])] + [tok(x) for x in case["init"]]
     )
     return [head] + [op_line(op) for op in case["ops"]]
 
@@ -352,6 +465,10 @@ def oracle(case):
                 return i, x
         return None, None
 
+    def plain():
+        """a plain Python list holding the same items: `==` is whatever the items define"""
+        return [real_item(u, x) for x in ref]
+
     def expected(op):
         """(acceptable error names, new reference list or None if unchanged, expected value or None)"""
         name = op[0]
@@ -409,7 +526,7 @@ def oracle(case):
                 v = new.pop() if op[1] is None else new.pop(op[1])
                 val = ("item", v)
             elif name == "remove":
-                new.remove(tuple(op[1]))
+                del new[plain().index(real_item(u, tuple(op[1])))]  # list.remove = delete the first == item
             elif name == "reverse":
                 new.reverse()
             elif name == "clear":
@@ -423,13 +540,13 @@ def oracle(case):
                 return errs, None, val
             elif name == "containsItem":
                 x = tuple(op[1])
-                val = ("bool", x in new or (u == "self" and scan(key(x))[0] is not None))
+                val = ("bool", real_item(u, x) in plain() or (u == "self" and scan(key(x))[0] is not None))
             elif name == "containsKey":
                 val = ("bool", scan(op[1])[0] is not None)
             elif name == "index":
-                val = ("nat", new.index(tuple(op[1])))
+                val = ("nat", plain().index(real_item(u, tuple(op[1]))))
             elif name == "count":
-                val = ("nat", new.count(tuple(op[1])))
+                val = ("nat", plain().count(real_item(u, tuple(op[1]))))
             elif name == "get":
                 val = ("opt", scan(op[1])[1])
             elif name == "indexForKey":
@@ -447,7 +564,7 @@ def oracle(case):
             elif name == "items":
                 val = ("pairset", {(key(x), x) for x in new})
             elif name == "eqList":
-                val = ("bool", new == [tuple(x) for x in op[1]])
+                val = ("bool", plain() == [real_item(u, tuple(x)) for x in op[1]])
         except IndexError:
             errs.add("IndexError")
             return errs, None, None
@@ -510,7 +627,7 @@ def oracle(case):
             ref[:] = cur  # resynchronise so later ops are judged on their own
         if len(l) != len(ref):
             viol.append(f"op#{n} len {len(l)} != {len(ref)}")
-        keys = {key(x) for x in ref} | {0, 1, 2, 3}
+        keys = {key(x) for x in ref} | set(universe_keys(u))
         for k in keys:
             i, x = scan(k)
             rk = real_key(u, k)
@@ -547,10 +664,37 @@ KEYS = [0, 1, 2]
 PAYLOADS = [0, 1]
 
 
+def universe_keys(u):
+    """keys used by the by-key operations (the last one is never stored)"""
+    if u == "num":
+        return list(range(len(NUMS))) + [7]
+    return KEYS + [7]
+
+
+def token_eq(u, a, b):
+    """token-level picture of `==` (tags only; the oracle uses the real items' own `==`)"""
+    m = EQMODE[u]
+    if m == 1:
+        return (a[1], a[2]) == (b[1], b[2])
+    if m == 2:
+        return (a[0], a[1], a[2] % 3) == (b[0], b[1], b[2] % 3)
+    return tuple(a) == tuple(b)
+
+
 def universe_items(u, typed):
     if u == "self":
         good = [(k, 0, 0) for k in KEYS]
         badl = [(100 + k, 0, 1) for k in (0, 1)] if typed else []
+    elif u == "num":
+        good = [(k, k // 3, 0) for k in range(len(NUMS))]
+        badl = [(100 + b, 0, b) for b in (1, 2)] if typed else []
+    elif u == "numkey":
+        good = [(k, p, 0) for k in KEYS for p in PAYLOADS]
+        if typed:
+            badl = [(101, 0, 1), (102, 0, 2), (1, 0, 3)]  # a float key is a wrong key type (and collides with key 1)
+        else:
+            good += [(k, 0, 3) for k in KEYS]  # (1.0, 0) == (1, 0), same key
+            badl = []
     else:
         good = [(k, p, 0) for k in KEYS for p in PAYLOADS]
         badl = [(100 + b, 0, b) for b in (1, 2)] if typed else []
@@ -571,7 +715,7 @@ def single_ops(u, typed, n):
     ops += [("remove", x) for x in items] + [("index", x) for x in items]
     ops += [("count", x) for x in items] + [("containsItem", x) for x in items]
     ops += [("reverse",), ("clear",), ("len",), ("iter",), ("keys",), ("items",), ("setSlice",), ("delSlice",)]
-    ks = KEYS + [7]
+    ks = universe_keys(u)
     ops += [("get", k) for k in ks] + [("indexForKey", k) for k in ks] + [("containsKey", k) for k in ks]
     if u != "intkey":
         ops += [("getKey", k) for k in ks] + [("delKey", k) for k in ks]
@@ -584,8 +728,8 @@ def single_ops(u, typed, n):
     return ops
 
 
-def initial_states(u, maxlen):
-    good, _ = universe_items(u, False)
+def initial_states(u, maxlen, typed=False):
+    good, _ = universe_items(u, typed)
     states = [[]]
     for n in range(1, maxlen + 1):
         for combo in itertools.permutations(good, n):
@@ -599,7 +743,7 @@ def random_op(u, typed, rng, n):
     items = good + badl if rng.random() < 0.25 else good
     x = lambda: list(rng.choice(items))  # noqa: E731
     i = lambda: rng.randint(-n - 1, n + 1)  # noqa: E731
-    k = lambda: rng.choice(KEYS + [7])  # noqa: E731
+    k = lambda: rng.choice(universe_keys(u))  # noqa: E731
     choices = [
         lambda: ("getIdx", i()), lambda: ("delIdx", i()), lambda: ("pop", rng.choice([None, i()])),
         lambda: ("setIdx", i(), x()), lambda: ("insert", i(), x()), lambda: ("insert", i(), x()),
@@ -641,10 +785,10 @@ def gen_cases(tier, rng):
     # exhaustive single ops from every initial state, each followed by the full set of reads
     for u in UNIVERSES:
         for typed in (False, True):
-            states = initial_states(u, maxlen)
+            states = initial_states(u, maxlen, typed)
             if tier == "quick":
                 # all states up to length 2; a sample of length 3
-                extra = [s for s in initial_states(u, 3) if len(s) == 3]
+                extra = [s for s in initial_states(u, 3, typed) if len(s) == 3]
                 states = states + rng.sample(extra, min(6, len(extra)))
             for st in states:
                 ops = single_ops(u, typed, len(st))
@@ -700,10 +844,23 @@ def tags(case, real):
             if head.startswith("err"):
                 t.append(head.replace(" ", ":"))
     t.append(f"len:{len(case['init'])}")
+    u = case["universe"]
+    if EQMODE[u]:
+        # did some state hold two items that are == but have different keys / the same key in two forms?
+        for line in real:
+            parts = line.split(" ;; ")
+            if len(parts) < 2 or len(parts[1]) < 3:
+                continue
+            its = [tuple(int(v) for v in x.split(":")) for x in parts[1][1:-1].split(",")]
+            if any(token_eq(u, x, y) for i, x in enumerate(its) for y in its[i + 1 :]):
+                t.append("shape:equal-items-distinct-keys")
+                break
+        if any(op[0] in ("getKey", "setKey", "delKey", "get", "indexForKey", "containsKey") for op in case["ops"]) and u == "numkey":
+            t.append("shape:key-equal-not-identical")
     return t
 
 MANIFEST_ENTRY = {
-    "level_text": "Lean 4 proof that the KeyedList Impl model (list + insertion-ordered key index, every method of keyed.py and the MutableSequence mixins) keeps the coherence invariant under every operation and operation sequence, refines plain-list semantics with the single uniqueness rule, answers by-key access like a linear scan and is atomic on failure, for any item/key types and any key function; the model is tied to /repo on every run by executing the same operation sequences on spec_classes.types.KeyedList and on the model (exhaustive single operations from every small container, then random sequences) and comparing result, exception class, list and key-index after every step.",
-    "level_note": "Trusted: Lean kernel; axioms propext/Classical.choice/Quot.sound only; the hand-written model and the correspondence harness (4 item universes x typed/untyped); key functions pure; item equality structural. The theorems are about the model; the per-run correspondence is what ties them to the code.",
+    "level_text": "Lean 4 proof that the KeyedList Impl model (list + insertion-ordered key index, every method of keyed.py and the MutableSequence mixins) keeps the coherence invariant under every operation and operation sequence, refines plain-list semantics with the single uniqueness rule, answers by-key access like a linear scan and is atomic on failure, for any item/key types, any key function and any item-equality relation (Python == on items is a parameter of the model: by-key access is proved independent of it, index/remove/count/in/== follow it); the model is tied to /repo on every run by executing the same operation sequences on spec_classes.types.KeyedList and on the model (exhaustive single operations from every small container, then random sequences) and comparing result, exception class, list and key-index after every step.",
+    "level_note": "Trusted: Lean kernel; axioms propext/Classical.choice/Quot.sound only; the hand-written model and the correspondence harness (7 item universes x typed/untyped, three of them with equal-but-distinct items or keys); key functions pure; item equality pure and reflexive. The theorems are about the model; the per-run correspondence is what ties them to the code.",
     "technique": "Lean 4 invariant + refinement proof over a hand-written model; differential correspondence against the real KeyedList",
 }
